@@ -9,6 +9,15 @@ one of four classes:
                        definition(s) `d` in `Pko.Model.Panic`; `Pko.Props.C19` proves it unreachable.
 * `guarded r`        – cannot fire, for the stated local reason `r` (a preceding check, a loop
                        bound, a library contract).  Read from the code, NOT proved.
+* `checkedGuard e g r` – a single-value type assertion `e` that cannot fire because of the run-time
+                       check(s) `g` on the asserted value that DOMINATE it in the same function.  `g`
+                       is not prose: it is the guard text the extractor computes for this site
+                       (`Pko.Gen.PanicCensus.assertGuards`: `unless C` = an earlier `if C { …leave }`
+                       of an enclosing block, after the last assignment to the value), and
+                       `Pko.Props.C19.assert_guards_checked` states that the regenerated rows of the
+                       function equal the ones expected here.  Deleting the check, moving it behind
+                       the assertion or replacing it by a test that is not about the run-time value
+                       breaks that theorem.  `r` says why `g` implies the assertion holds.
 * `startupOnly r`    – depends only on compiled-in data (the runtime scheme), never on package
                        content or cluster object state; would fire for every input alike.
 * `fixedElsewhere p` – a defect tracked and repaired under another property `p`.
@@ -23,6 +32,7 @@ namespace Pko.Model.PanicCensusExpect
 inductive Cls where
   | modelled (leanDef : String)
   | guarded (reason : String)
+  | checkedGuard (expr : String) (guards : String) (reason : String)
   | startupOnly (reason : String)
   | fixedElsewhere (property : String)
   deriving Repr
@@ -38,6 +48,18 @@ structure Entry where
 /-- the census rows this entry accounts for -/
 def Entry.sites (e : Entry) : List (String × String × String) :=
   List.replicate e.count (e.file, e.fn, e.kind)
+
+/-- the rows of `Pko.Gen.PanicCensus.assertGuards` this entry pins (only `checkedGuard`) -/
+def Entry.guardRows (e : Entry) : List (String × String × String × String) :=
+  match e.cls with
+  | .checkedGuard expr guards _ => List.replicate e.count (e.file, e.fn, expr, guards)
+  | _ => []
+
+/-- the function of a `checkedGuard` entry: ALL its type assertions must be pinned -/
+def Entry.guardFn (e : Entry) : List (String × String) :=
+  match e.cls with
+  | .checkedGuard .. => [(e.file, e.fn)]
+  | _ => []
 
 def schemeOnly : String :=
   "scheme.New / type assertion on an object of a kind registered by PKO's own AddToScheme: depends only on the compiled-in scheme, not on package or cluster content"
@@ -230,7 +252,8 @@ def expected : List Entry := [
   ⟨"internal/packages/internal/packagemanifestvalidation/private.go", "validatorAdapter.Validate", "panic", 1,
     .guarded "only called by apiextensions validation.ValidateCustomResource, which passes no options in the vendored version (constant call shape, independent of input)"⟩,
   ⟨"internal/packages/internal/packagerender/celctx/cel.go", "CelCtx.evaluate", "assert", 1,
-    .guarded "out.Value().(bool) directly after `reflect.DeepEqual(out.Type(), cel.BoolType)` returned an error otherwise"⟩,
+    .checkedGuard "out.Value().(bool)" "unless !reflect.DeepEqual(out.Type(), cel.BoolType)"
+      "out is the ref.Val the program evaluated to; control reaches the assertion only when its RUN-TIME type is cel.BoolType, and a cel-go value of BoolType is types.Bool, whose Value() is a Go bool.  A check of the STATIC output type of the AST would not do: every template-context variable is declared map(string, any), so `config.x` has static type dyn and any run-time type (exercised by the render stream's dyn-typed CEL conditions)"⟩,
   ⟨"internal/packages/internal/packagerender/conditionmap.go", "parseConditionMapAnnotation", "index", 5,
     .modelled "Pko.Model.Panic.parseParts (parts[0], parts[1] twice each) and Pko.Model.Panic.parseLines (outputMappings[i])"⟩,
   ⟨"internal/packages/internal/packagerender/objects.go", "RenderObjectsWithFilter", "index", 3,
@@ -260,7 +283,8 @@ def expected : List Entry := [
   ⟨"internal/preflight/preflight.go", "addPositionToViolations", "index", 1,
     .guarded rangeIdx⟩,
   ⟨"internal/preflight/preflight.go", "phaseFromContext", "assert", 1,
-    .guarded "value under the unexported context key is only ever stored by NewContextWithPhase with that type; nil is handled before"⟩,
+    .checkedGuard "phaseI.(corev1alpha1.ObjectSetTemplatePhase)" "unless phaseI == nil"
+      "nil (no value stored) returns before; a non-nil value under the unexported context key is only ever stored by NewContextWithPhase with that type (read from the code)"⟩,
   ⟨"internal/probing/parse.go", "Parse", "index", 1,
     .guarded rangeIdx⟩,
   ⟨"internal/utils/hash.go", "DeepHashObject", "panic", 1,
@@ -274,6 +298,10 @@ def expected : List Entry := [
 ]
 
 def expectedSites : List (String × String × String) := expected.flatMap Entry.sites
+
+/-- Functions with a `checkedGuard` entry and the guard rows expected for them. -/
+def guardedFns : List (String × String) := expected.flatMap Entry.guardFn
+def expectedGuardRows : List (String × String × String × String) := expected.flatMap Entry.guardRows
 
 /-- Potential panic sites on the untrusted-input path that the SYNTACTIC census cannot see
 (nil-interface call, nil-map write, nil-pointer dereference), recorded by hand. -/
